@@ -94,7 +94,7 @@ class C13(Sim):
         "copy_of_a_copy", "edit_copy_then_process_original", "process_other_between_inputs_and_process", "restart_after_abort",
         "toggle_process_restore_process", "linear_or_function_engine_copied", "batch_then_scalar_same_engine",
         "abort_with_rule_already_triggered", "restart_after_crash", "crash_inside_reload_rules", "history_free_checked",
-        "idempotence_checked", "inplace_container_edit", "replace_term_and_restart", "copy_crashed", "shipped_example_engine",
+        "idempotence_checked", "inplace_container_edit", "replace_term_and_restart", "copy_crashed", "shipped_example_engine", "identity_term_chain",
     ]
 
     def prepare(self) -> None:
@@ -113,6 +113,15 @@ class C13(Sim):
                 o["terms"][0] = S.gen_term(rng, rng.choice(["Linear", "Function"]), o["terms"][0]["name"], 0, 1, names_in, [], False)
         if rng.random() < 0.12:
             sp = S.example_spec(rng, allow_fn_reads_output=True, randomise_cascade=rng.random() < 0.5) or sp
+        elif rng.random() < 0.10:
+            S.make_identity_chain(rng, sp)
+            if not general_only and rng.random() < 0.6:
+                for b in sp["blocks"]:
+                    b["activation"] = {"cls": rng.choice(["Proportional", "Proportional", "Highest", "First"])}
+                    if b["activation"]["cls"] in ("Highest",):
+                        b["activation"]["rules"] = 2
+                    if b["activation"]["cls"] == "First":
+                        b["activation"].update(rules=2, threshold=0.0)
         vector_ok = all(b["activation"] and b["activation"]["cls"] == "General" for b in sp["blocks"])
         if arm == "crash":
             yield from self._crash_cases(rng, sp, vector_ok, tier)
@@ -196,6 +205,8 @@ class C13(Sim):
 
     def _inputs(self, rng, sp, e, vector_ok) -> dict:
         k = rng.choice([1, 1, 1, 2, 4]) if vector_ok else 1
+        if sp.get("flags", {}).get("identity_chain") and k == 1 and rng.random() < 0.6:
+            return {"op": "inputs", "e": e, "rows": [S.draw_row(rng, sp, 0.05)], "setter": "np0d"}
         return {"op": "inputs", "e": e, "rows": [S.draw_row(rng, sp, rng.choice([0.05, 0.2, 0.4])) for _ in range(k)],
                 "setter": rng.choice(["vars", "vars", "matrix", "np0d", "npfloat"])}
 
@@ -255,6 +266,8 @@ class C13(Sim):
         live[0].cached = EO.snapshot(e0)
         if sp.get("flags", {}).get("example"):
             st.hit("probes.shipped_example_engine")
+        if sp.get("flags", {}).get("identity_chain"):
+            st.hit("probes.identity_term_chain")
         has_ref_terms = any(t["cls"] in ("Linear", "Function") for v in sp["inputs"] + sp["outputs"] for t in v["terms"])
         fam = "".join(sorted({o["family"][0] for o in sp["outputs"]})) + "".join(sorted({(b["activation"] or {"cls": "-"})["cls"][0] for b in sp["blocks"]}))
         grams: set[str] = set()
